@@ -23,6 +23,18 @@ BUILD = "msg::message::MessageBuilder::build_message"
 DATA_LEN = 1029
 
 
+class ZipObj(object):
+    """a buffer iterator zipped with a literal array"""
+
+    def __init__(self, a, b):
+        self.a, self.b, self.pos = a, b, 0
+
+    def copy_val(self, memo, cp):
+        n = ZipObj(cp(self.a, memo), list(self.b))
+        n.pos = self.pos
+        return n
+
+
 class Asm(object):
     def __init__(self, lo, hi, offset):
         self.lo, self.hi, self.offset = lo, hi, offset     # offset: int | None (unknown after an encoder ran)
@@ -234,6 +246,42 @@ class BuildInterp(Interp):
             if ok:
                 return Adt("core::result::Result", 0, "Ok", [UNIT])
             return Adt("core::result::Result", 1, "Err", [Opaque("error", (c,))])
+        if short == "for_each" and "Iterator" in c and len(t["args"]) == 2:
+            args = [self.operand(st, a) for a in t["args"]]
+            if isinstance(args[0], bitsem.It) and isinstance(args[1], bitsem.Closure):
+                n = 0
+                while True:
+                    nx = self.it_next(st, args[0])
+                    if nx.vname == "None":
+                        break
+                    n += 1
+                    if n > 2000:
+                        raise Undecided("for_each over more than 2000 elements")
+                    self.exec_closure(st, args[1], [nx.fields[0]])
+                return UNIT
+            raise Undecided("for_each on an unmodelled iterator")
+        if c == "core::iter::Iterator::zip" and len(t["args"]) == 2:
+            args = [self.operand(st, a) for a in t["args"]]
+            if isinstance(args[0], bitsem.It) and isinstance(args[1], list):
+                return ZipObj(args[0], list(args[1]))
+            raise Undecided("zip of something other than a buffer iterator and an array")
+        if short == "into_iter" and len(t["args"]) == 1:
+            a0 = self.operand(st, t["args"][0])
+            if isinstance(a0, ZipObj):
+                return a0
+        if c.endswith("::next") and "core::iter::Zip<" in c:
+            r = self.operand(st, t["args"][0])
+            obj = self._get(st, r.loc) if isinstance(r, Ref) else None
+            if not isinstance(obj, ZipObj):
+                raise Undecided("Zip::next on an unmodelled iterator")
+            if obj.pos >= len(obj.b):
+                return Adt("core::option::Option", 0, "None", [])
+            x = self.it_next(st, obj.a)
+            if x.vname == "None":
+                return x
+            y = obj.b[obj.pos]
+            obj.pos += 1
+            return Adt("core::option::Option", 1, "Some", [Tup([x.fields[0], y])])
         if c == "msg::message::Message::number":
             if "variant" in st.choices and "number" not in st.choices:
                 st.choices["number"] = 1 if st.choices["variant"] in self.variants else 0
@@ -412,6 +460,16 @@ class BuildInterp(Interp):
                 loc = self.index_loc(st, loc, st.locals.get(p["local"]))
             elif p["k"] == "constindex":
                 loc = self.index_loc(st, loc, p.get("offset", p.get("i")))
+            elif p["k"] == "subslice" and not p.get("from_end") and isinstance(p.get("from"), int) and isinstance(p.get("to"), int):
+                # `[first, rest @ ..] = &mut self.data`: the array positions from .. to
+                if self.data_loc(loc):
+                    loc = ("slice", 0, DATA_LEN)
+                if loc[0] != "slice" or lin_parts(loc[1]) is None or loc[2] is None or lin_parts(loc[2]) is None:
+                    raise Undecided("sub-slice pattern on an unmodelled location")
+                lo, hi = add(loc[1], p["from"]), add(loc[1], p["to"])
+                if Interp.compare(self, "Le", hi, loc[2]) != 1:
+                    raise Undecided("sub-slice pattern beyond the slice")
+                loc = ("slice", lo, hi)
             else:
                 raise Undecided("projection %s" % p["k"])
         return loc
